@@ -159,7 +159,12 @@ int main(void) {
                 static char buf[1 << 22]; size_t bl = 0; buf[0] = 0;
                 for (int i = 0; i < n; i++) {
                     errno = 0;
-                    if (!qhashtbl_getnext(t, &o, true)) { ended = errno == ENOENT ? 1 : 2; break; }
+                    if (!qhashtbl_getnext(t, &o, true)) {
+                        ended = errno == ENOENT ? 1 : 2;
+                        /* the end is stable: asking again reports the end again and leaves the object alone */
+                        if (ended == 1 && qhashtbl_getnext(t, &o, true)) { ended = 3; free(o.name); free(o.data); }
+                        break;
+                    }
                     FILE *m = fmemopen(buf + bl, sizeof buf - bl, "w");
                     if (!first) fputc(',', m); first = 0;
                     puthex(m, o.name, strlen(o.name)); fputc('=', m); puthex(m, o.data, o.size);
@@ -167,7 +172,7 @@ int main(void) {
                     scribble_free(o.name, strlen(o.name) + 1); scribble_free(o.data, o.size);
                     /* o.name keeps its (now dangling) non-NULL value: getnext only tests it against NULL */
                 }
-                printf("walk %s %s", ended == 1 ? "end" : ended == 2 ? "end-without-ENOENT" : "more", buf);
+                printf("walk %s %s", ended == 1 ? "end" : ended == 2 ? "end-without-ENOENT" : ended == 3 ? "end-then-another-entry" : "more", buf);
             } else printf("?? %s", op);
             QV_END;
             if (QV_TRY(20)) { dump(t); QV_END; } else { printf(" DUMP-%s", qv_sig == SIGALRM ? "TIMEOUT" : "CRASH"); dead = 1; }
